@@ -28,6 +28,9 @@ WORDS = {"T": "true", "F": "false", "INF": "inf", "NAN": "nan"}
 LEX = {"ex": "e+20", "ex2": "e-07"}
 A_LETTERS = "ghkmp"          # never b e x i n f t r u : no literal can form
 B_LETTERS = "qsvwyz"         # and every a-letter sorts before every b-letter
+HEX_LETTERS = "acdf"         # hex letter of IP literal hosts (not b, e: no
+#                              binary / exponent literal can form); sorts
+#                              before every a-letter
 OTHERS = "()*#%~!;<>?^{}&$"
 INT_TYPES = {"uint8": Uint8, "uint16": Uint16, "uint32": Uint32,
              "uint64": Uint64, "sint8": Sint8, "sint16": Sint16,
@@ -48,9 +51,10 @@ class CharMap:
     def __init__(self, rng, mixed_case=False):
         a = rng.choice(A_LETTERS)
         b = rng.choice(B_LETTERS)
+        h = rng.choice(HEX_LETTERS)
         self.ot = rng.choice(OTHERS)
         self.m = {"a": a, "A": a.upper(), "b": b, "B": b.upper(),
-                  "ot": self.ot, "DT": DT_TEXT}
+                  "h": h, "H": h.upper(), "ot": self.ot, "DT": DT_TEXT}
         self.m.update(PUNCT)
         self.rng = rng
         self.mixed = mixed_case      # parser input: words in random case
@@ -207,7 +211,7 @@ def project(cm, obj):
 # free dimensions (case of names, key order, int/real width)
 # ----------------------------------------------------------------------------
 
-_FLIP = {"a": "A", "A": "a", "b": "B", "B": "b"}
+_FLIP = {"a": "A", "A": "a", "b": "B", "B": "b", "h": "H", "H": "h"}
 
 
 def recase(rng, syms, prob=0.5):
@@ -388,7 +392,12 @@ def probe_variant():
             "C", {"k": Real32(1.5)}).to_wbem_uri()
         flags["C07_HISTNOCOLON"] = CIMInstanceName(
             "C", {"k": 1}, host="h").to_wbem_uri("historical") == "//h/C.k=1"
-    flags["C07_NEEDSDOT"] = parses("C.k=1e+20") is None
+        flags["C07_HOSTLIT"] = "F" in CIMClassName(
+            "C", host="[FE80::1]", namespace="n").to_wbem_uri("canonical")
+    flags["C07_NEEDSDOT"] = parses("C.k=1e+20") is None and \
+        parses("C.k=1e-07") is None
+    flags["C07_EXPMINUS"] = parses("C.k=1.5e+20") is None and \
+        parses("C.k=1.5e-07") is not None
     flags["C07_LFREJECT"] = parses('C.k="a\nb"') is None
     r = parses('C.k="%sx"' % DT_TEXT)
     flags["C07_DTPREFIX"] = r is not None and \
